@@ -203,8 +203,9 @@ func runC20(tb stat.TB, c c20Case) {
 				time.Sleep(2 * time.Millisecond)
 			}
 		case "resize":
+			// (also after Stop was issued: a Resize may overlap a Stop that is still waiting for busy workers)
 			if stopped {
-				continue
+				stat.Label("resize_after_stop_was_issued", 1)
 			}
 			if queuedNow() > 0 {
 				nt = true
